@@ -106,9 +106,13 @@ def _check_import(env, mdf, rows, tag=""):
             env.check(tag + "field_%s_%d" % (em, i), env.eq(mdf[em].iloc[i], r[st]))
 
 
-def h_import(env, n=2, via="init"):
+def h_import(env, n=2, via="init", index="default"):
     cm = env.module("cryomotl")
     rows, sgdf = _sg_frame(env, n)
+    if index == "permuted":
+        sgdf.index = [(i + 1) % n for i in range(n)]         # e.g. a STOPGAP table sorted by score
+    elif index == "gaps":
+        sgdf.index = [4 + 3 * i for i in range(n)]           # e.g. one half-set / a subset of tomograms selected from a larger table
     if via == "init":
         m = cm.StopgapMotl(sgdf)
     else:
@@ -183,6 +187,7 @@ def jobs(tier, seed):
     j = [("h_export", {"n": n, "reset_index": False}), ("h_export", {"n": n, "reset_index": True}),
          ("h_export", {"n": n, "reset_index": False, "index": "gaps"}),
          ("h_import", {"n": n, "via": "init"}), ("h_import", {"n": n, "via": "stopgap2emmotl"}),
+         ("h_import", {"n": n, "via": "init", "index": "permuted"}), ("h_import", {"n": n, "via": "stopgap2emmotl", "index": "gaps"}),
          ("h_roundtrip", {"n": 2, "reset_index": False}),
          ("h_via_file", {"n": 3, "reset_index": False}), ("h_via_file", {"n": 2, "reset_index": True}),
          ("h_via_file", {"n": 2, "reset_index": False, "update_coord": True, "reload_then_write": True})]
